@@ -2,7 +2,7 @@
 import crashcheck
 
 PID = 'C05'
-TAGS = {'crashopen', 'crashview', 'crashinvented', 'crashfollow', 'recover', 'conforms'}
+TAGS = {'crashopen', 'crashview', 'crashinvented', 'crashfollow', 'crashnested', 'recoverynumbers', 'recover', 'conforms'}
 THEOREMS = [
     'Lcdb.C05.recover_subset',
     'Lcdb.C05.recover_subset_filter',
@@ -18,7 +18,7 @@ TARGETS = ['LcdbModel.Props.C05']
 
 
 def run(tier):
-    return crashcheck.run_crash(PID, tier, TAGS, THEOREMS, IMPORTS, TARGETS, '01234', True)
+    return crashcheck.run_crash(PID, tier, TAGS, THEOREMS, IMPORTS, TARGETS, '0134', 'nested', quick=(6, 30, 16))
 
 
 def replay(path):
